@@ -280,6 +280,63 @@ def run(ck):
                   path=hits[0][1] if hits else None)
     ck.require(nlocked >= 3, "guarded regions found in client.cc: %d" % nlocked)
 
+    # ---------------- R7: a claimed connection is used or given back on every path ----------------
+    ck.rule("C15-R7", "C typestate (claim / use-or-release)",
+            "in Client::processRequestQueue every connection claimed by pickConnection (non-null) is, on every path, either put to work "
+            "(performImpl / handed to the work list) or released with releaseConnection: a claimed and forgotten connection stays Used "
+            "forever and the host's later requests are queued and never sent", 1)
+    prq = lib.single(prog, CLIENT + "processRequestQueue")
+    picks = [d_ for d_ in prq.events("decl") if strip_tmpl(d_.get("icall") or "") == POOL + "pickConnection"]
+    ck.require(picks, "pickConnection not found in Client::processRequestQueue")
+    for d_ in picks:
+        var = d_["var"]
+        nulls = {(b.id, 0 if b.term.get("neg") else 1) for b in prq.blocks.values() if b.term and b.term.get("k") == "if" and (b.term.get("core") or {}).get("root") == var and not b.term.get("cmp")}
+
+        def disposes(ev):
+            if ev["k"] != "call":
+                return False
+            c = ev.get("callee") or ""
+            if c == POOL + "releaseConnection" and any((a.get("v") == var or (a.get("moved") or {}).get("v") == var) for a in ev.get("args", [])):
+                return True
+            if c == CONN + "performImpl" and (ev.get("recv") or {}).get("root") == var:
+                return True
+            return lib.is_stl_mutation(ev) and any((a.get("v") == var or (a.get("moved") or {}).get("v") == var) for a in ev.get("args", []))
+        lost = []
+        heads = {h for h, _b in cfg.natural_loops(prq)}
+
+        def step7(st, ev):
+            if disposes(ev):
+                return None
+            if ev["k"] == "dtor" and ev.get("var") == var and ev.get("vd") == d_.get("vd"):
+                lost.append(ev)
+                return None
+            return st
+
+        def edge7(st, blk, k, succ):
+            if (blk.id, k) in nulls:
+                return None
+            return st
+        cfg.run_automaton(prq, 0, step7, edge=edge7, start=d_.block, start_idx=d_.idx + 1)
+        ck.ob("C15-R7", "processRequestQueue/claimed-connection-used-or-released", not lost, d_.loc, prq,
+              "every non-null pick is performed, queued for performing, or released" if not lost else
+              "the connection claimed at line %s goes out of scope (line %s) on a path that neither uses nor releases it" % (d_.get("l"), lost[0].get("l")))
+
+    # ---------------- R8: a fired time-out is unregistered before its callback ----------------
+    ck.rule("C15-R8", "C ordering",
+            "Transport::handleReadableEntry erases the expired timer's entry from `timeouts` before it calls Connection::handleTimeout: the "
+            "callback may start the next queued request on the same connection and timer, whose registration (a keep-first insert) must "
+            "find the slot free and must not be erased afterwards", 1)
+    hre = lib.single(prog, E + "Transport::handleReadableEntry")
+    hto = [e for e in hre.calls(lambda e: (e.get("callee") or "") == CONN + "handleTimeout")]
+    ers = [e for e in hre.calls(lambda e: e.base_callee() == "std::unordered_map::erase" and strip_tmpl((e.get("recv") or {}).get("f") or "") == E + "Transport::timeouts")]
+    ck.require(hto and ers, "handleTimeout call / timeouts.erase not found in handleReadableEntry")
+    after = [e for e in cfg.events_after(hre, hto[0]) if any(e is x for x in ers)]
+    before = [x for x in ers if cfg.ev_dominates(cfg.dominators(hre), x, hto[0]) or hto[0].block in cfg.reachable_blocks(hre, x.block)]
+    ck.ob("C15-R8", "handleReadableEntry/erase-before-callback", bool(before) and not after, hto[0].loc, hre,
+          "timeouts.erase(fd) precedes handleTimeout()" if before and not after else
+          "timeouts.erase at line %s runs after handleTimeout(): it removes the registration of the request the callback has just started"
+          % (after[0].get("l") if after else "?"))
+
     # ---------------- R5 ----------------
     rr = lib.single(prog, "Pistache::TimerPool::Entry::registerReactor")
     once = [b for b in rr.blocks.values() if b.term and b.term.get("k") == "if" and strip_tmpl((b.term.get("core") or {}).get("f") or "") == "Pistache::TimerPool::Entry::registered"]
